@@ -23,9 +23,14 @@ Definition ex_Align : row := mkRow "Align" [mkF "q" FPos None; mkF "delay" FPos 
 Definition ex_M : row := mkRow "M" M_formals [] [] [] [] [] None false [] CBGate false.
 Definition ex_rows : list row := [ex_H; ex_RX; ex_CNOT; ex_iSWAP; ex_I; ex_Align; ex_M].
 Definition ex_bases : list string := ["X"; "Y"; "Z"].
-Definition ex_required : list string :=
+(* the tables as they are on the current tree (after the repairs of _qibo_gate_name("iswap") and of
+   REQUIRED_FIELDS_INIT_KWARGS), and as they were before (prefix old_), kept only for the historical lemmas *)
+Definition old_required : list string :=
   ["theta"; "phi"; "lam"; "phi0"; "phi1"; "register_name"; "collapse"; "basis"; "p0"; "p1"].
-Definition ex_specials : list (string * string) := [("cx", "CNOT"); ("id", "I"); ("ccx", "TOFFOLI"); ("u", "U3"); ("U", "U3")].
+Definition ex_required : list string := (old_required ++ ["delay"; "unitary"])%list.
+Definition old_specials : list (string * string) := [("cx", "CNOT"); ("id", "I"); ("ccx", "TOFFOLI"); ("u", "U3"); ("U", "U3")].
+Definition ex_specials : list (string * string) :=
+  [("cx", "CNOT"); ("id", "I"); ("ccx", "TOFFOLI"); ("iswap", "iSWAP"); ("u", "U3"); ("U", "U3")].
 Definition ex_rotation (b : string) (q : Z) : option gate :=
   if String.eqb b "X" then Some (mkGate "H" [VA (AInt q)] [] [q] [] [] false None false [] None) else None.
 
@@ -39,6 +44,7 @@ Proof.
   repeat (destruct Hin as [<-|Hin]);
     try (vm_compute in H; discriminate H);
     try (split; [vm_compute; reflexivity | split; [intro E; try discriminate E | intro E; try discriminate E]]).
+  - std_ctor_tac.
   - std_ctor_tac.
   - std_ctor_tac.
   - std_ctor_tac.
@@ -110,9 +116,18 @@ Definition ex_iswap_circuit : res circuit :=
   g1 <- construct ex_bases ex_iSWAP [VA (AInt 0); VA (AInt 1)] [];
   build ex_rotation 2 false [g1].
 
-Lemma ex_iswap_rejected : exists c s,
+(* current tree: the iSWAP label is read back as iSWAP *)
+Lemma ex_iswap_roundtrips : exists c s c',
   ex_iswap_circuit = OK c /\ write ex_rows c = OK s
-  /\ read ex_rows ex_bases ex_specials ex_rotation s = Err EValueError.
+  /\ read ex_rows ex_bases ex_specials ex_rotation s = OK c'
+  /\ map gcls (cqueue c') = ["iSWAP"] /\ map gtargets (cqueue c') = map gtargets (cqueue c).
+Proof. exists (wc ex_iswap_circuit), (ws (wc ex_iswap_circuit)), (rc (ws (wc ex_iswap_circuit))). wit. Qed.
+
+(* HISTORICAL (before the repair of _qibo_gate_name): without the special case "iswap" -> "iSWAP" the
+   exported text `iswap q[0],q[1];` was rejected ("ISWAP" is not a class) *)
+Lemma historical_iswap_rejected_without_special_case : exists c s,
+  ex_iswap_circuit = OK c /\ write ex_rows c = OK s
+  /\ read ex_rows ex_bases old_specials ex_rotation s = Err EValueError.
 Proof. exists (wc ex_iswap_circuit), (ws (wc ex_iswap_circuit)). wit. Qed.
 
 Definition ex_dupreg_circuit : res circuit :=
@@ -140,15 +155,20 @@ Proof.
   wit.
 Qed.
 
-(* Gate.raw drops Align's `delay` *)
-Lemma ex_align_delay_lost : exists g g',
-  construct ex_bases ex_Align [VA (AInt 1); VA (AInt 3)] [] = OK g
-  /\ from_dict ex_rows ex_bases (raw ex_required g) = OK g'
-  /\ gparams g = [VA (AInt 3)] /\ gparams g' = [VA (AInt 0)].
+(* current tree: Align keeps its delay through raw / from_dict *)
+Definition ex_align : gate := unwrap dummy_gate (construct ex_bases ex_Align [VA (AInt 1); VA (AInt 3)] []).
+Lemma ex_align_roundtrips :
+  construct ex_bases ex_Align [VA (AInt 1); VA (AInt 3)] [] = OK ex_align
+  /\ raw_rt_ok (from_dict ex_rows ex_bases (raw ex_required ex_align)) ex_align
+  /\ gparams ex_align = [VA (AInt 3)].
+Proof. repeat split; vm_compute; reflexivity. Qed.
+
+(* HISTORICAL (before "delay" was added to REQUIRED_FIELDS_INIT_KWARGS): Gate.raw dropped Align's delay *)
+Lemma historical_align_delay_lost_without_delay_key : exists g',
+  from_dict ex_rows ex_bases (raw old_required ex_align) = OK g'
+  /\ gparams ex_align = [VA (AInt 3)] /\ gparams g' = [VA (AInt 0)].
 Proof.
-  exists (unwrap dummy_gate (construct ex_bases ex_Align [VA (AInt 1); VA (AInt 3)] [])),
-         (unwrap dummy_gate (from_dict ex_rows ex_bases (raw ex_required (unwrap dummy_gate (construct ex_bases ex_Align [VA (AInt 1); VA (AInt 3)] []))))).
-  wit.
+  exists (unwrap dummy_gate (from_dict ex_rows ex_bases (raw old_required ex_align))). wit.
 Qed.
 
 (* non-vacuity of circuit_dict_roundtrip_partial: the example circuit's gates satisfy its hypothesis *)
